@@ -159,6 +159,13 @@ def opsBounds (t : Tables) (kind op : String) (args : List String) : Option Stri
     let ctx ← parseCtx ctx; let ms ← parseAst ast
     let e := extOf t.keyEnv ctx ms
     pure s!"{b9ShowON (maxSatSize ctx e)} {b9ShowON (maxSatWitnessElements e)}"
+  -- C extvia <route> <ctx> <ast>: the figures stored in an object that was built by another route
+  --   than from_ast (text, Script decoding, leaf constructors, translate_pk, Clone): ExtData,
+  --   script_size and the two accessors, all in one answer
+  | "C", "extvia", [_route, ctx, ast] => do
+    let ctx ← parseCtx ctx; let ms ← parseAst ast
+    let e := extOf t.keyEnv ctx ms
+    pure s!"{showExt e} {scriptSize t.keyEnv ctx ms} {b9ShowON (maxSatSize ctx e)} {b9ShowON (maxSatWitnessElements e)}"
   | "C", "wrl", [ctx, ast] => do
     let ctx ← parseCtx ctx; let ms ← parseAst ast
     pure (if Lift.withinResourceLimits t.keyEnv ctx ms then "1" else "0")
@@ -177,14 +184,21 @@ def opsBounds (t : Tables) (kind op : String) (args : List String) : Option Stri
     let mss ← (kv "mss" mss).bind b9OptNat; let mwe ← (kv "mwe" mwe).bind b9OptNat
     pure (judgeBound t ctx lt sq script wit ⟨lim == 1, vc == 1, vs == 1, mss, mwe⟩ st ssz pkc sat)
   -- J descw <kind> <input> <assets> <mode> <pad> | <scriptSig> <witness> claimed=<wu|none> txin_delta=<rust-bitcoin's figure>
-  | "J", "descw", _kind :: _input :: _assets :: _mode :: _pad :: "|" :: ss :: wit :: claimed :: delta :: _ => do
+  --   fresh= the same accessor BEFORE the object was used, inner= the inner descriptor type's own method
+  | "J", "descw", _kind :: _input :: _assets :: _mode :: _pad :: "|" :: ss :: wit :: claimed :: delta :: rest => do
     let ss ← Hash.ofHex ss; let wit ← parseHexList wit
     let claimed ← kv "claimed" claimed; let delta ← kvNat "txin_delta" delta
     let measured := txinWeightDelta ss wit
+    let extra : List (String × Bool) := rest.filterMap fun tok =>
+      match tok.splitOn "=" with
+      | [k, v] => some (match v.toNat? with
+          | some c => le s!"weight-{k}" measured c
+          | none => (s!"satisfied-but-{k}-figure-is-{v}", false))
+      | _ => none
     if measured != delta then pure s!"bad:spec-weight {measured} != rust-bitcoin {delta}"
     else match claimed.toNat? with
       | none => pure "bad:satisfied-but-max_weight_to_satisfy-is-Err"
-      | some c => pure (firstBad [le "weight" measured c])
+      | some c => pure (firstBad ([le "weight" measured c] ++ extra))
   -- J declared <ctx> <ast> | pkc= st= sat= mss= mwe=      (only for `within_resource_limits` scripts)
   --   the figures of a script the library declares within the limits of its context are within
   --   them: script size (520 / 10000 / 3600), 201 executed opcodes outside Tap, scriptSig 1650
@@ -225,13 +239,19 @@ def opsBounds (t : Tables) (kind op : String) (args : List String) : Option Stri
   -- J descwold <kind> <input> <assets> <mode> <pad> | <scriptSig> <witness> claimed=<wu|none>
   --   the deprecated `max_satisfaction_weight`: 4 x (scriptSig with its CompactSize) + the
   --   serialized witness (nothing for an empty witness)
-  | "J", "descwold", _kind :: _input :: _assets :: _mode :: _pad :: "|" :: ss :: wit :: claimed :: _ => do
+  | "J", "descwold", _kind :: _input :: _assets :: _mode :: _pad :: "|" :: ss :: wit :: claimed :: rest => do
     let ss ← Hash.ofHex ss; let wit ← parseHexList wit
     let claimed ← kv "claimed" claimed
     let measured := 4 * scriptSigSerSize ss + (if wit.isEmpty then 0 else witnessSerSize wit)
+    let extra : List (String × Bool) := rest.filterMap fun tok =>
+      match tok.splitOn "=" with
+      | [k, v] => some (match v.toNat? with
+          | some c => le s!"old-weight-{k}" measured c
+          | none => (s!"satisfied-but-{k}-figure-is-{v}", false))
+      | _ => none
     match claimed.toNat? with
     | none => pure "bad:satisfied-but-max_satisfaction_weight-is-Err"
-    | some c => pure (firstBad [le "old-weight" measured c])
+    | some c => pure (firstBad ([le "old-weight" measured c] ++ extra))
   -- J planw <kind> <input> <assets> <mode> <pad> <src> | <scriptSig> <witness> claimed=<witness_size>,<scriptsig_size>,<satisfaction_weight>|none
   --   src = getsat / plansat: the spend produced by get_satisfaction / Plan::satisfy, all three sizes
   --   src = items: only the witness ITEMS the plan's template stands for (the trailing witness
